@@ -138,7 +138,8 @@ class RefsWorld:
                 ops.append({'op': 'src', 's': rng.randrange(ns), 'p': rng.choice(['x', 'y']), 'v': rng.randint(0, 5)})
                 continue
             if rng.random() < rr:
-                k = weighted(rng, [('plain_bad', 3), ('link_bad', 4), ('const', 2), ('ro', 1), ('clsset', 1), ('update_bad', 2), ('ctor_bad', 1.5)])
+                k = weighted(rng, [('plain_bad', 3), ('link_bad', 4), ('const', 2), ('ro', 1), ('clsset', 1), ('update_bad', 2), ('ctor_bad', 1.5),
+                                   ('reent', 2.5)])
                 after_reject = 2
             else:
                 k = weighted(rng, [('src', 8), ('link', 5), ('plain', 2.5), ('update1', 1), ('uctx_open', 1), ('uctx_close', 1.2), ('ctor', 0.6),
@@ -184,6 +185,9 @@ class RefsWorld:
                     ref = {'k': 'param', 's': ref['s'], 'p': 'x'}
                 ops.append({'op': 'src', 's': ref['s'], 'p': ref.get('p', 'x'), 'v': rng.randint(11, 15), 'quiet': True})
                 ops.append({'op': 'link', 't': t, 'p': pn, 'ref': ref})
+            elif k == 'reent':
+                ops.append({'op': 'reent', 't': t, 'p': rng.choice(['a', 'b', 't', 'a']), 'i': rng.randrange(2), 'v': rng.randint(0, 5),
+                            'how': rng.choice(['ref', 'ref', 'plain']), 'bs': rng.randrange(ns), 'bp': rng.choice(['x', 'y'])})
             elif k == 'const':
                 ops.append({'op': 'const', 't': t, 'how': rng.choice(['plain', 'ref', 'update'])})
             elif k == 'ro':
@@ -539,6 +543,9 @@ class _Run:
             return
         ti = op.get('t', 0) % nt
         t = self.tgt[ti]
+        if k == 'reent':
+            self.reentrant(op, ti, t)
+            return
         if k == 'link':
             pn, ref = op['p'], op['ref']
             v = eval_ref(ref, self.msrc)
@@ -644,6 +651,59 @@ class _Run:
             self.attempt(lambda: setattr(K, op['p'], op['v']), False, f"class-level {K.__name__}.{op['p']} = {op['v']!r}")
         elif k == 'ctor':
             self.construct(op['kw'])
+
+    def reentrant(self, op, ti, t):
+        """A rejected assignment made from a watcher of the linked parameter while that parameter is being synchronised from
+        its source (the re-entrant instant): it raises there and changes nothing, the link keeps following its source."""
+        pn = op['p']
+        ref = self.links[ti].get(pn)
+        if ref is None or ref['k'] in ('abind', 'nested') or (ti, pn) in self.pending or self.tainted or self.uctx[ti]:
+            return
+        srcs = sorted(ref_sources(ref))
+        if not srcs:
+            return
+        s, sp = srcs[op.get('i', 0) % len(srcs)]
+        pick = None
+        for d in range(6):
+            v = (op['v'] + d) % 6
+            trial = [dict(m) for m in self.msrc]
+            trial[s][sp] = v
+            # every link fed by that source must stay valid, and this one must change (so that its watchers run)
+            if eval_ref(ref, trial) != self.mval[ti][pn] and all(
+                    valid_for(p2, eval_ref(r2, trial)) for t2 in range(len(self.tgt)) for p2, r2 in self.links[t2].items()
+                    if r2['k'] != 'abind' and (s, sp) in ref_sources(r2)):
+                pick = (v, trial)
+                break
+        if pick is None:
+            return
+        v, trial = pick
+        bad, badv = None, None
+        if op['how'] == 'ref':
+            if pn == 't':
+                bad = {'k': 'param', 's': op['bs'] % len(self.src), 'p': op['bp']}
+            else:
+                bad = {'k': 'bind', 's': op['bs'] % len(self.src), 'p': op['bp'], 'f': 'neg'}
+            if valid_for(pn, eval_ref(bad, trial)):
+                bad = None
+        if bad is None:
+            badv = {'a': -1, 'b': 99, 't': 'V1'}[pn]
+        fired = []
+
+        def cb(event):
+            if fired:
+                return
+            fired.append(1)
+            value = self.make_ref(bad) if bad is not None else badv
+            self.attempt(lambda: setattr(t, pn, value), False,
+                         f"re-entrant {'link' if bad is not None else 'plain'} T{ti}.{pn} <- {bad if bad is not None else badv!r} "
+                         f"(from a watcher of T{ti}.{pn} while it is synchronised)", ti, pn)
+        w = t.param.watch(cb, [pn])
+        try:
+            self.do({'op': 'src', 's': s, 'p': sp, 'v': v})
+        finally:
+            t.param.unwatch(w)
+        if fired:
+            self.out.stats['probe.reentrant_rejected_assignment'] += 1
 
     def drain(self):
         """let every pending task run to completion (FIFO): afterwards asynchronous links mirror their reference too"""
